@@ -40,6 +40,13 @@ const shimPath = "github.com/blugelabs/bluge/verifmc"
 
 var tmpN int
 
+// mapRanges holds "file:line:col" of every `for … range m` over a map with an
+// ordered key type (found by the type-checking pass); those loops are rewritten
+// to iterate in sorted key order, so that executions do not depend on Go's map
+// iteration order.
+var mapRanges = map[string]bool{}
+var curFset *token.FileSet
+
 func tmp(p string) string { tmpN++; return fmt.Sprintf("__mc_%s%d", p, tmpN) }
 
 func sel(x, s string) *ast.SelectorExpr {
@@ -176,6 +183,10 @@ func rewriteStmt(s ast.Stmt) ast.Stmt {
 	case *ast.RangeStmt:
 		x.X = rewriteExpr(x.X)
 		rewriteBlock(x.Body)
+		if isMapRange(x) {
+			pre, loop := sortedMapRange(x)
+			return &ast.BlockStmt{List: []ast.Stmt{pre, loop}}
+		}
 	case *ast.BlockStmt:
 		rewriteBlock(x)
 	case *ast.SwitchStmt:
@@ -190,6 +201,13 @@ func rewriteStmt(s ast.Stmt) ast.Stmt {
 		rewriteExprs(x.List)
 		x.Body = rewriteStmts(x.Body)
 	case *ast.LabeledStmt:
+		if r, ok := x.Stmt.(*ast.RangeStmt); ok && isMapRange(r) {
+			r.X = rewriteExpr(r.X)
+			rewriteBlock(r.Body)
+			pre, loop := sortedMapRange(r)
+			x.Stmt = loop // the label stays on the loop: break / continue LABEL keep their meaning
+			return &ast.BlockStmt{List: []ast.Stmt{pre, x}}
+		}
 		x.Stmt = rewriteStmt(x.Stmt)
 	case *ast.DeferStmt:
 		x.Call = rewriteExpr(x.Call).(*ast.CallExpr)
@@ -197,6 +215,48 @@ func rewriteStmt(s ast.Stmt) ast.Stmt {
 		x.X = rewriteExpr(x.X)
 	}
 	return s
+}
+
+func isMapRange(x *ast.RangeStmt) bool {
+	if curFset == nil {
+		return false
+	}
+	p := curFset.Position(x.For)
+	return mapRanges[fmt.Sprintf("%s:%d:%d", filepath.Base(p.Filename), p.Line, p.Column)]
+}
+
+// for k, v := range m { body }  =>
+//
+//	__m := m
+//	for _, __k := range verifmc.SortedKeys(__m) {
+//		v, __ok := __m[__k]; if !__ok { continue }   // an entry removed meanwhile is not produced
+//		k := __k
+//		body
+//	}
+func sortedMapRange(x *ast.RangeStmt) (ast.Stmt, ast.Stmt) {
+	m, k, v, ok := tmp("m"), tmp("k"), tmp("v"), tmp("ok")
+	pre := &ast.AssignStmt{Lhs: []ast.Expr{ast.NewIdent(m)}, Tok: token.DEFINE, Rhs: []ast.Expr{x.X}}
+	var head []ast.Stmt
+	head = append(head,
+		&ast.AssignStmt{Lhs: []ast.Expr{ast.NewIdent(v), ast.NewIdent(ok)}, Tok: token.DEFINE,
+			Rhs: []ast.Expr{&ast.IndexExpr{X: ast.NewIdent(m), Index: ast.NewIdent(k)}}},
+		&ast.IfStmt{Cond: &ast.UnaryExpr{Op: token.NOT, X: ast.NewIdent(ok)}, Body: &ast.BlockStmt{List: []ast.Stmt{&ast.BranchStmt{Tok: token.CONTINUE}}}},
+		&ast.AssignStmt{Lhs: []ast.Expr{ast.NewIdent("_")}, Tok: token.ASSIGN, Rhs: []ast.Expr{ast.NewIdent(v)}},
+	)
+	tok := x.Tok
+	if tok == token.ILLEGAL {
+		tok = token.DEFINE
+	}
+	if id, isID := x.Key.(*ast.Ident); x.Key != nil && !(isID && id.Name == "_") {
+		head = append(head, &ast.AssignStmt{Lhs: []ast.Expr{x.Key}, Tok: tok, Rhs: []ast.Expr{ast.NewIdent(k)}})
+	}
+	if id, isID := x.Value.(*ast.Ident); x.Value != nil && !(isID && id.Name == "_") {
+		head = append(head, &ast.AssignStmt{Lhs: []ast.Expr{x.Value}, Tok: tok, Rhs: []ast.Expr{ast.NewIdent(v)}})
+	}
+	body := &ast.BlockStmt{List: append(head, x.Body.List...)}
+	loop := &ast.RangeStmt{Key: ast.NewIdent("_"), Value: ast.NewIdent(k), Tok: token.DEFINE,
+		X: call(sel("verifmc", "SortedKeys"), ast.NewIdent(m)), Body: body}
+	return pre, loop
 }
 
 // go f(a, b)  =>  { fn, a0, a1 := f, a, b ; verifmc.Go(func(){ fn(a0,a1) }) }
@@ -357,6 +417,14 @@ func typeCheck(dir string, files []string) []string {
 					if _, isChan := tv.Type.Underlying().(*types.Chan); isChan {
 						bad = append(bad, fmt.Sprintf("%s: range over channel", fset.Position(x.Pos())))
 					}
+					if mt, isMap := tv.Type.Underlying().(*types.Map); isMap {
+						if b, isBasic := mt.Key().Underlying().(*types.Basic); isBasic && b.Info()&(types.IsInteger|types.IsString|types.IsFloat) != 0 {
+							p := fset.Position(x.For)
+							mapRanges[fmt.Sprintf("%s:%d:%d", filepath.Base(p.Filename), p.Line, p.Column)] = true
+						} else {
+							bad = append(bad, fmt.Sprintf("%s: range over a map whose key type cannot be sorted", fset.Position(x.Pos())))
+						}
+					}
 				}
 			case *ast.SelectorExpr:
 				if id, ok := x.X.(*ast.Ident); ok {
@@ -397,11 +465,19 @@ func main() {
 	var nonTest []string
 	counts := map[string]int{}
 	for _, f := range files {
-		if strings.HasSuffix(f, "_test.go") {
-			continue
+		if !strings.HasSuffix(f, "_test.go") {
+			nonTest = append(nonTest, f)
 		}
-		nonTest = append(nonTest, f)
+	}
+	// first the type-checking pass over the ORIGINAL package: refuses constructs the
+	// rewrite cannot control and finds the map ranges that are made deterministic
+	if bad := typeCheck(src, nonTest); len(bad) > 0 {
+		die(2, "unsupported constructs:\n  %s", strings.Join(bad, "\n  "))
+	}
+	_ = check
+	for _, f := range nonTest {
 		fset := token.NewFileSet()
+		curFset = fset
 		af, err := parser.ParseFile(fset, f, nil, parser.ParseComments)
 		if err != nil {
 			die(2, "parse %s: %v", f, err)
@@ -440,7 +516,14 @@ func main() {
 		txt := buf.String()
 		counts["verifmc-calls"] += strings.Count(txt, "verifmc.")
 		if strings.Contains(txt, "verifmc.") {
-			txt = strings.Replace(txt, "\nimport ", "\nimport \""+shimPath+"\"\nimport ", 1)
+			if strings.Contains(txt, "\nimport ") {
+				txt = strings.Replace(txt, "\nimport ", "\nimport \""+shimPath+"\"\nimport ", 1)
+			} else {
+				// a file without imports: add one after the package clause
+				i := strings.Index(txt, "package ")
+				j := i + strings.IndexByte(txt[i:], '\n')
+				txt = txt[:j+1] + "\nimport \"" + shimPath + "\"\n" + txt[j+1:]
+			}
 		}
 		cons := "go1.21"
 		orig, _ := os.ReadFile(f)
@@ -459,11 +542,7 @@ func main() {
 		}
 		overlay[f] = o
 	}
-	if *check {
-		if bad := typeCheck(src, nonTest); len(bad) > 0 {
-			die(2, "unsupported constructs:\n  %s", strings.Join(bad, "\n  "))
-		}
-	}
+	counts["map-ranges"] = len(mapRanges)
 	// shim as a virtual package inside the bluge module
 	for _, sub := range []string{"", "msync"} {
 		fs, _ := filepath.Glob(filepath.Join(*shim, sub, "*.go"))
@@ -570,6 +649,6 @@ func main() {
 	if err := os.WriteFile(filepath.Join(*out, "overlay_os.json"), js, 0o644); err != nil {
 		die(2, "%v", err)
 	}
-	fmt.Printf("mcrewrite: %d files rewritten, %d shim calls, %d sync imports replaced, overlay entries %d\n",
-		len(nonTest), counts["verifmc-calls"], counts["sync-import"], len(overlay))
+	fmt.Printf("mcrewrite: %d files rewritten, %d shim calls, %d sync imports replaced, %d map ranges made deterministic, overlay entries %d\n",
+		len(nonTest), counts["verifmc-calls"], counts["sync-import"], counts["map-ranges"], len(overlay))
 }
